@@ -12,8 +12,10 @@ from .pdfwriter import Name, Ref, Str, Stream
 
 
 class Seed:
-    def __init__(self, name, objects, roles, root=1, info=None, form="table", pack=None, trailer_extra=None, flate_containers=True):
+    def __init__(self, name, objects, roles, root=1, info=None, form="table", pack=None, trailer_extra=None, flate_containers=True, encrypt=None, encrypt_skip=()):
         self.flate_containers = flate_containers
+        self.encrypt = encrypt  # a sim.crypt.Handler: the objects are the plaintext model, encrypted when written
+        self.encrypt_skip = encrypt_skip
         self.name = name
         self.objects = objects
         self.roles = roles
@@ -27,7 +29,7 @@ class Seed:
         return self.writer(objects).getvalue()
 
     def writer(self, objects=None):
-        return build_pdf(objects if objects is not None else self.objects, self.root, info=self.info, form=self.form, pack=self.pack, trailer_extra=self.trailer_extra, flate_containers=self.flate_containers)
+        return build_pdf(objects if objects is not None else self.objects, self.root, info=self.info, form=self.form, pack=self.pack, trailer_extra=self.trailer_extra, flate_containers=self.flate_containers, encrypt=self.encrypt, encrypt_skip=self.encrypt_skip)
 
     def container_streams(self):
         """(object number, offset, length) of the payloads of streams the writer added itself (object/xref streams)."""
@@ -228,5 +230,47 @@ def s_hybrid():
     return s
 
 
+def _fixed_rnd():
+    state = [7]
+
+    def rnd(n):
+        out = bytearray()
+        for _ in range(n):
+            state[0] = (state[0] * 1103515245 + 12345) & 0x7FFFFFFF
+            out.append((state[0] >> 16) & 0xFF)
+        return bytes(out)
+
+    return rnd
+
+
+def _encrypted(name, v, r, keybits, cfm, form):
+    from . import crypt
+
+    base = s_classic()
+    docid = bytes(range(16))
+    h = crypt.Handler(v, r, keybits, cfm, "", "owner", -44, docid, True, _fixed_rnd())
+    o = dict(base.objects)
+    o[8] = content_stream(b"plain stream with (a string)", extra={b"Note": Str(b"in the stream dictionary")})
+    o[3] = dict(o[3])
+    o[3][b"Annots"] = [Ref(8, 0)]
+    o[9] = h.encrypt_dict()
+    roles = dict(base.roles)
+    roles[8] = "PlainStream"
+    roles[9] = "EncryptDict"
+    return Seed(name, o, roles, info=6, form=form, pack=[1, 2, 3, 5, 6] if form == "stream" else None, trailer_extra={b"Encrypt": Ref(9, 0), b"ID": [Str(docid), Str(docid)]}, encrypt=h, encrypt_skip=(9,))
+
+
+def s_encrypted_rc4():
+    return _encrypted("encrypted-rc4", 2, 3, 128, "V2", "table")
+
+
+def s_encrypted_aes():
+    return _encrypted("encrypted-aes", 4, 4, 128, "AESV2", "stream")
+
+
+def s_encrypted_aes256():
+    return _encrypted("encrypted-aes256", 5, 6, 256, "AESV3", "table")
+
+
 def all_seeds():
-    return [s_classic(), s_xrefstream(), s_fonts(), s_forms_images(), s_filters(), s_labels_outlines(), s_cjk(), s_hybrid()]
+    return [s_classic(), s_xrefstream(), s_fonts(), s_forms_images(), s_filters(), s_labels_outlines(), s_cjk(), s_hybrid(), s_encrypted_rc4(), s_encrypted_aes(), s_encrypted_aes256()]
